@@ -156,6 +156,9 @@ def run(ctx):
   # which parameters are preconditioned at all
   from . import C05
   C05.ds_excluded_parameters(ctx)
+  # "applied along every preconditioned axis" of every block: the blocks are put back where they were taken from
+  from . import C06
+  C06.block_partitioner(ctx)
 
 
 def initial_values(ctx):
